@@ -21,13 +21,30 @@ Theorem C12_resub_prefix_refuted :
 Proof. vm_compute. reflexivity. Qed.
 Print Assumptions C12_resub_prefix_refuted.
 
-(* F12b: a repeating engine is restarted after ResourceExhausted even when the component does not
-   list that reason, if the system is judged unstable (RepeatingEngine.restart ignores
-   restartHookOn and the unstable-system path of the controller reaches it). *)
+(* F12b (repaired by a fix: commit): in the pinned code a repeating engine was restarted after
+   ResourceExhausted even when the component did not list that reason, if the system was judged
+   unstable (RepeatingEngine.restart ignored restartHookOn and the unstable-system path of the
+   controller reaches it).  [ctl_restart_f12b] is the pinned code; the repaired [ctl_restart]
+   refuses on the same input. *)
 Definition rep_cfg : cfg := {| max_restarts := None; hook_file := HFNone; hook_loadable := false;
   hook_on := [KnownIssue]; is_sim := false; sim_restart := false; is_rep := true; shutdown_on := [] |}.
 Theorem C12_repeating_unlisted_refuted :
   ~ In ResourceExhausted (hook_on rep_cfg) /\
-  snd (ctl_restart rep_cfg init_st ResourceExhausted HJunk false true) = Initiated.
-Proof. split; [cbn; intros [H|[]]; discriminate|reflexivity]. Qed.
+  snd (ctl_restart_f12b rep_cfg init_st ResourceExhausted HJunk false true) = Initiated /\
+  ctl_restart rep_cfg init_st ResourceExhausted HJunk false true = (init_st, NotRequired).
+Proof. split; [cbn; intros [H|[]]; discriminate|split; reflexivity]. Qed.
 Print Assumptions C12_repeating_unlisted_refuted.
+
+(* C12_total_bound needs "Success is not listed as restartable": with Success listed a successful
+   exit is itself restarted and resets the re-submission counter, so with a maximum of 2 eleven (> 2 + 5)
+   restarts are performed (5 re-submissions, 1 continuation, 5 re-submissions).  Not a defect: the
+   property caps CONSECUTIVE re-submissions. *)
+Definition succ_cfg : cfg := {| max_restarts := Some 2; hook_file := HFEmpty; hook_loadable := false;
+  hook_on := [Success]; is_sim := true; sim_restart := true; is_rep := false; shutdown_on := [] |}.
+Definition succ_ev r := {| ev_reason := r; ev_hook := HJunk; ev_stable := true; ev_run_ok := true |}.
+Definition succ_hist := map succ_ev (repeat SubmissionFailed 5 ++ [Success] ++ repeat SubmissionFailed 5).
+Theorem C12_total_bound_success_listed_refuted :
+  is_rep succ_cfg = false /\ eff_max succ_cfg = 2 /\ In Success (hook_on succ_cfg) /\
+  count_cont succ_cfg init_st succ_hist + count_resub succ_cfg init_st succ_hist = 11.
+Proof. vm_compute. repeat split; auto. Qed.
+Print Assumptions C12_total_bound_success_listed_refuted.
